@@ -169,6 +169,14 @@ class MatV(Opaque):
             return "MT"
         return "(%s %s)" % ({"inv": "MInv", "T": "MTr"}[self.op], self.arg.coq())
 
+    def parity(self):
+        """(number of inversions mod 2, number of transpositions mod 2): inversion and
+        transposition are commuting involutions, so this is the matrix up to spelling"""
+        if self.op == "cheb":
+            return (0, 0)
+        i, t = self.arg.parity()
+        return ((i + 1) % 2, t) if self.op == "inv" else (i, (t + 1) % 2)
+
 
 class ArrayV:
     """a definitely-not-None array argument supplied by the caller"""
@@ -289,6 +297,13 @@ class Interp:
                 return a in b
             if isinstance(op, ast.NotIn):
                 return a not in b
+            if isinstance(op, (ast.Gt, ast.GtE, ast.Lt, ast.LtE)) and \
+                    all(isinstance(v, (int, float)) for v in (a, b)):
+                return {ast.Gt: a > b, ast.GtE: a >= b, ast.Lt: a < b, ast.LtE: a <= b}[type(op)]
+            if isinstance(op, (ast.Gt, ast.GtE, ast.Lt, ast.LtE)) and \
+                    any(isinstance(v, Lin) for v in (a, b)):
+                raise TranslateError("ordering test on a symbolic size (line %s)" %
+                                     getattr(node, "lineno", "?"))
             raise TranslateError("comparison %s" % ast.dump(op))
         if isinstance(node, ast.BinOp):
             a, b = self.ev(node.left), self.ev(node.right)
@@ -372,7 +387,13 @@ class Interp:
                     not isinstance(v, bool), "bool": isinstance(v, bool),
                     "tuple": isinstance(v, tuple)}.get(t, False)
         if fn == "range":
+            if not all(isinstance(a, int) for a in args):
+                raise TranslateError("range over a size that is not a concrete integer "
+                                     "(line %d)" % node.lineno)
             return list(range(*[a for a in args]))
+        if fn in ("int", "bool") and len(args) == 1 and isinstance(args[0], (bool, int, Lin)):
+            return args[0] if isinstance(args[0], Lin) else (
+                int(args[0]) if fn == "int" else bool(args[0]))
         if fn == "enumerate":
             return list(enumerate(args[0]))
         if fn == "tuple":
@@ -388,6 +409,9 @@ class Interp:
                 return ConstArr(args[0], "pi")
             if args[1] in (1, 1.0) and not isinstance(args[1], Opaque):
                 return ConstArr(args[0], 1)
+        if fn == "np.eye" and (len(args) == 1 or (len(args) == 2 and isinstance(
+                args[1], (int, Lin)) and lin(args[0]) == lin(args[1]))) and not node.keywords:
+            fn, args = "np.identity", args[:1]        # the same matrix
         if fn == "np.identity" or (fn or "").startswith("self._"):
             self.calls.append((fn, args, node))
             return Opaque(fn)
@@ -429,8 +453,39 @@ class Interp:
         # subscript targets: ignored (array element stores)
 
     def run(self, body):
-        for st in body:
-            self.stmt(st)
+        self.depth = getattr(self, "depth", 0) + 1
+        try:
+            for k, st in enumerate(body):
+                self.rest = body[k + 1:]
+                self.stmt(st)
+        finally:
+            self.depth -= 1
+
+    def check_skipped(self, st, rest, depth):
+        """A branch whose test is an array value is not executed.  That is only sound if it
+        cannot change what the method computes for the facts extracted: no call of a method
+        of the object, no store to an attribute, and a `return` only where the method is
+        about to return anyway (the `if` is the last statement before the final return)."""
+        tail = depth == 1 and (not rest or (len(rest) == 1 and isinstance(rest[0], ast.Return)))
+        for sub in st.body + st.orelse:
+            for nd in ast.walk(sub):
+                if isinstance(nd, ast.Return) and not tail:
+                    raise TranslateError("data-dependent early return (line %d): `if %s`" % (
+                        nd.lineno, ast.unparse(st.test)[:60]))
+                if isinstance(nd, ast.Call):
+                    fn = self.name_of(nd.func) or ""
+                    if fn.startswith("self.") and not fn.startswith("self._check") and \
+                            fn not in ("self._isBroadcastable",):
+                        raise TranslateError("call of %s in a data-dependent branch (line %d)"
+                                             % (fn, nd.lineno))
+                if isinstance(nd, (ast.Assign, ast.AugAssign, ast.AnnAssign)):
+                    tg = nd.targets if isinstance(nd, ast.Assign) else [nd.target]
+                    for t in tg:
+                        for e in ast.walk(t):
+                            if isinstance(e, ast.Attribute) and self.name_of(e) and \
+                                    self.name_of(e).startswith("self."):
+                                raise TranslateError("store to %s in a data-dependent branch "
+                                                     "(line %d)" % (self.name_of(e), nd.lineno))
 
     def stmt(self, st):
         if isinstance(st, (ast.Pass, ast.Assert)):
@@ -492,10 +547,12 @@ class Interp:
                 self.env[st.target.id] = Opaque("aug")
             return
         if isinstance(st, ast.If):
+            rest, depth = self.rest, self.depth
             tv = self.ev(st.test)
             if isinstance(tv, Opaque):
-                # data-dependent branch: run neither side, forget every name either side
-                # assigns (a recorded call hidden inside shows up as a missing call)
+                # data-dependent branch: run neither side (after checking that skipping it is
+                # sound), forget every name either side assigns
+                self.check_skipped(st, rest, depth)
                 for sub in st.body + st.orelse:
                     for nd in ast.walk(sub):
                         tg = []
@@ -556,6 +613,37 @@ def methods(src, cls="Polynomial"):
         pyrx.check_plain_class(found[0])
     except pyrx.TranslateError as e:
         raise TranslateError(str(e))
+    if any(not (isinstance(b, ast.Name) and b.id == "object") for b in found[0].bases):
+        raise TranslateError("class %s has base classes (%s)" % (
+            cls, ", ".join(ast.unparse(b) for b in found[0].bases)))
+    # names the recognisers rely on must mean what the imports say
+    special = {"eval_chebyt": "scipy.special", "eval_chebyu": "scipy.special", "np": "numpy"}
+    for n in tree.body:
+        bound = []
+        if isinstance(n, ast.ImportFrom):
+            for a in n.names:
+                nm = a.asname or a.name
+                if nm in special and not (n.module == special[nm] and a.name == nm):
+                    raise TranslateError("%s is imported from %s" % (nm, n.module))
+            continue
+        if isinstance(n, ast.Import):
+            for a in n.names:
+                nm = a.asname or a.name
+                if nm in special and a.name != special[nm]:
+                    raise TranslateError("%s is bound to module %s" % (nm, a.name))
+            continue
+        if isinstance(n, (ast.FunctionDef, ast.ClassDef, ast.AsyncFunctionDef)):
+            bound = [n.name]
+        else:
+            for e in ast.walk(n):
+                if isinstance(e, ast.Name) and isinstance(e.ctx, (ast.Store, ast.Del)):
+                    bound.append(e.id)
+                if isinstance(e, ast.Call) and isinstance(e.func, ast.Name) and \
+                        e.func.id in ("exec", "eval", "globals", "setattr", "__import__"):
+                    raise TranslateError("module calls %s (line %d)" % (e.func.id, n.lineno))
+        for nm in bound:
+            if nm in special or (nm == cls and n is not found[0]):
+                raise TranslateError("module rebinds %s (line %d)" % (nm, n.lineno))
     for n in ast.walk(tree):
         tg = []
         if isinstance(n, ast.Assign):
@@ -659,7 +747,13 @@ def fresh_expr(node, known):
         return False
     if isinstance(node, ast.Call):
         fn = ast.unparse(node.func)
+        if any(k.arg == "copy" and not (isinstance(k.value, ast.Constant) and
+                                        k.value.value is True) for k in node.keywords):
+            # copy=False / copy=None / copy=<expr>: may return the argument itself
+            return fresh_expr(node.args[0], known) if node.args else False
         if fn in ALLOC_CALLS:
+            if fn in UFUNC_ARITY and len(node.args) > UFUNC_ARITY[fn]:
+                return False                 # positional `out`
             return not any(k.arg == "out" for k in node.keywords)
         if isinstance(node.func, ast.Attribute) and node.func.attr in ("copy",):
             return True
@@ -673,6 +767,13 @@ def fresh_expr(node, known):
                          ast.unparse(node)[:60])
 
 
+UFUNC_ARITY = {"np.multiply": 2, "np.add": 2, "np.subtract": 2, "np.divide": 2,
+               "np.true_divide": 2, "np.power": 2, "np.maximum": 2, "np.minimum": 2,
+               "np.matmul": 2, "np.negative": 1, "np.sqrt": 1, "np.abs": 1, "np.absolute": 1,
+               "np.exp": 1, "np.log": 1, "np.cos": 1, "np.sin": 1, "np.square": 1,
+               "np.sign": 1, "np.conj": 1, "np.reciprocal": 1, "np.rint": 1, "np.floor": 1,
+               "np.ceil": 1}
+COPY_KW_FUNCS = {"np.nan_to_num": 1, "np.clip": 3, "np.round": 2, "np.around": 2}
 MUTATING_METHODS = {"fill", "sort", "resize", "put", "itemset", "partition", "byteswap",
                     "setfield", "setflags", "append", "extend", "insert", "pop", "remove",
                     "clear", "reverse", "update", "setdefault", "popitem", "__setitem__",
@@ -738,6 +839,23 @@ def alias_scan(ms):
                         flag(mname, nd)
             if fn in MUTATING_FUNCS and nd.args and not root_fresh(nd.args[0], known):
                 flag(mname, nd)
+            # positional `out` of a numpy ufunc: np.multiply(a, b, a)
+            if fn in UFUNC_ARITY and len(nd.args) > UFUNC_ARITY[fn] and \
+                    not root_fresh(nd.args[UFUNC_ARITY[fn]], known):
+                flag(mname, nd)
+            # ufunc.at(a, idx[, b]) / ufunc.reduce(..., out) style in-place methods
+            if isinstance(nd.func, ast.Attribute) and nd.func.attr == "at" and nd.args and \
+                    ast.unparse(nd.func.value).startswith(("np.", "numpy.")) and \
+                    not root_fresh(nd.args[0], known):
+                flag(mname, nd)
+            # nan_to_num / clip / round with copy=False or a positional out
+            if fn in COPY_KW_FUNCS and nd.args and not root_fresh(nd.args[0], known):
+                nocopy = any(k.arg == "copy" and not (isinstance(k.value, ast.Constant) and
+                                                      k.value.value is True)
+                             for k in nd.keywords)
+                posout = fn != "np.nan_to_num" and len(nd.args) > COPY_KW_FUNCS[fn]
+                if nocopy or posout:
+                    flag(mname, nd)
             if isinstance(nd.func, ast.Attribute) and nd.func.attr in MUTATING_METHODS \
                     and not root_fresh(nd.func.value, known):
                 flag(mname, nd)
@@ -932,21 +1050,47 @@ def generate(src):
     w("   basis-function values: to Chebyshev / to Cardinal, with / without inverseTranspose *)")
     w("Inductive mexpr := MT | MInv (m : mexpr) | MTr (m : mexpr).")
     tabm = {}
+
+    def canon(par):
+        e = "(MInv MT)" if par[0] else "MT"
+        return "(MTr %s)" % e if par[1] else e
+
     for tocheb in (True, False):
         for itr in (True, False):
-            env = base_env()
-            env.update({"self.rank": 1,
-                        "self.basis": ("Cardinal" if tocheb else "Chebyshev",),
-                        "newBasis": ("Chebyshev" if tocheb else "Cardinal",),
-                        "self.direction": ("z",), "self.endpoints": (False,),
-                        "inverseTranspose": itr})
-            it = Interp(env)
-            it.run_method(ms["changeBasis"])
-            cs = [c for c in it.calls if c[0] == "contract"]
-            if len(cs) != 1:
-                raise TranslateError("changeBasis: expected one contraction "
-                                     "np.sum(matrix * expand_dims(coefficients, i), axis=i+1)")
-            tabm[(tocheb, itr)] = cs[0][1][0].coq()
+            seen = set()
+            for (d, ep) in kinds:
+                ref = None
+                for rank in range(1, 7):        # the rank must not matter (it is concrete here)
+                    env = base_env()
+                    env.update({"self.rank": rank,
+                                "self.basis": rank * ("Cardinal" if tocheb else "Chebyshev",),
+                                "newBasis": rank * ("Chebyshev" if tocheb else "Cardinal",),
+                                "self.direction": rank * (d,),
+                                "self.endpoints": rank * (ep,),
+                                "inverseTranspose": itr})
+                    it = Interp(env)
+                    it.run_method(ms["changeBasis"])
+                    cs = [c for c in it.calls if c[0] == "contract"]
+                    ch = [c for c in it.calls if c[0] == "self.chebyshev"]
+                    if len(cs) != rank or len(ch) != rank:
+                        raise TranslateError(
+                            "changeBasis: expected one contraction np.sum(matrix * "
+                            "expand_dims(coefficients, i), axis=i+1) per axis (rank %d)" % rank)
+                    for c, h in zip(cs, ch):
+                        key = (c[1][0].parity(), need_rng(h[1][1], "changeBasis").lo.key(),
+                               need_rng(h[1][1], "changeBasis").hi.key(), h[1][2],
+                               ast.dump(c[2].keywords[0].value) if c[2].keywords else None)
+                        if ref is None:
+                            ref = key
+                        if key != ref:
+                            raise TranslateError("changeBasis treats an axis differently "
+                                                 "depending on the rank or on its position "
+                                                 "(rank %d)" % rank)
+                seen.add(ref[0])
+            if len(seen) != 1:
+                raise TranslateError("changeBasis: the matrix expression depends on the "
+                                     "direction / end points")
+            tabm[(tocheb, itr)] = canon(seen.pop())
     w("Definition gen_cb_matrix (toCheb inverseTranspose : bool) : mexpr :=")
     w("  match toCheb, inverseTranspose with")
     for k in ((True, True), (True, False), (False, True), (False, False)):
@@ -1118,7 +1262,7 @@ def generate(src):
         it.run_method(ms["_cardinalMatrix"])
         cs = [c for c in it.calls if c[0] == "np.identity"]
         if len(cs) != 1 or len(cs[0][1]) != 1 or len(it.calls) != 1 or \
-                getattr(it, "retnode", None) is not cs[0][2]:
+                getattr(it, "retnode", None) is not cs[0][2] or cs[0][2].keywords:
             raise TranslateError("_cardinalMatrix does not return np.identity(size)")
         tab[(d, ep)] = lin(cs[0][1][0]).coq()
     match2("gen_cardMatrix_size", "(d : dir) (ep : bool) (M N : nat) : nat", tab)
